@@ -1,0 +1,21 @@
+//go:build verif
+
+// Verification hook (build tag `verif` only): register a message id for a plain generated protobuf
+// type, so that Packet.Decode can be exercised without a protoc step. Add-only; not part of the API.
+
+package packet
+
+import (
+	"reflect"
+
+	"google.golang.org/protobuf/proto"
+)
+
+// VerifRegister makes `id` the message id of the Go type of `msg` (e.g. &wrapperspb.StringValue{}).
+func VerifRegister(id int32, msg proto.Message) {
+	var rtype = reflect.TypeOf(msg).Elem()
+	var name = rtype.String()
+	msgTypeRegistry[name] = rtype
+	msgNameIds[name] = id
+	msgIdNames[id] = name
+}
